@@ -7,7 +7,7 @@ BODIES = [b"", b"\xc3\x9cber text \xe2\x80\xa0\n", b"a & b < c > d \"q\" 'z'\n",
           b"&amp; &lt; &#10; &quot; literal entities\n", b"caf\xc3\xa9 \xe2\x80\xa0 \xf0\x9f\x98\x80\n", b"    code\n\n  \n", b"text\n \n\t\n"]
 STYLES = ["atx", "closed", "setext"]
 METAS = [b"", b"Title: My Title\n", b"Title: T & <x> \"q\"\nAuthor: Some One\n", b"Title: B\nBase Header Level: 2\n", b"Base Header Level: 3\nmy key: v: w\n", b"Author: \xc3\x89mile \xe2\x80\xa0\nTitle: \xc3\x9cber\n"]
-PRE = [b"", b"preamble text & more\n"]
+PRE = [b"", b"preamble text & more\n", b"\nKey: text after a leading blank line\n", b"\n\nplain after two blank lines\n"]      # the last two make a document without metadata begin with blank lines
 
 def level_seqs(n):
     out = []
@@ -72,6 +72,7 @@ def cases_list(tier):
                 for m in range(len(METAS)):
                     for pr in range(len(PRE)):
                         if n >= 3 and (m in (1, 4)): continue
+                        if pr >= 2 and n > 2: continue
                         out.append((seq, styles, bods, m, pr, 0))
                         if n <= 2 and m in (0, 2): out.append((seq, styles, bods, m, pr, 1))        # the same document with CRLF line ends
                         if n <= 2 and m == 0: out.append((seq, styles, bods, m, pr, 2))             # bodies that start on the line right after their heading
